@@ -87,8 +87,8 @@ enum FontObj {
 }
 
 fn font_case(objs: &[FontObj], k: u64, tolerant: bool) -> (String, String) {
-    // model: index 0 = object 0 (free) → bad
-    let mut m = vec!["b".to_string()];
+    // model: index 0 = object 0 (free) → a missing object
+    let mut m = vec!["m".to_string()];
     let mut bodies = vec![];
     for o in objs {
         match o {
@@ -102,7 +102,7 @@ fn font_case(objs: &[FontObj], k: u64, tolerant: bool) -> (String, String) {
             }
             FontObj::Type0(ds) => {
                 // only the first element of /DescendantFonts is loaded
-                m.push(if ds.is_empty() { "n0".to_string() } else { format!("n0:{}.0.x", ds[0]) });
+                m.push(if ds.is_empty() { "n0".to_string() } else { format!("n0:{}.2.x", ds[0]) });
                 bodies.push(format!("<< /Type /Font /Subtype /Type0 /BaseFont /Comp /Encoding /Identity-H /DescendantFonts [{}] >>", ds.iter().map(|d| rf(*d)).collect::<Vec<_>>().join(" ")));
             }
         }
